@@ -1,10 +1,10 @@
 SPECIFICATION Spec
 CONSTANTS
-  Threads = {1, 2, 3}
+  Threads = {1}
   NMeth = 3
   BadM = 2
-  MaxFail = 2
-  CallsPer = 2
+  MaxFail = 4
+  CallsPer = 6
   SwapLast = TRUE
   RestoreOnFail = TRUE
   UseLock = TRUE
